@@ -1,0 +1,80 @@
+//go:build verif
+// +build verif
+
+package encoder
+
+import (
+	"fmt"
+	"sort"
+	"strings"
+	"sync/atomic"
+
+	"github.com/goccy/go-json/internal/verifhook"
+)
+
+// State access for the external verification harness (build tag verif only).
+
+func init() {
+	verifhook.Resetters = append(verifhook.Resetters, verifReset)
+	verifhook.Dumpers = append(verifhook.Dumpers, verifDump)
+	verifhook.Describers = append(verifhook.Describers, verifDescribe)
+}
+
+func verifReset() {
+	initEncoder()
+	for i := range cachedOpcodeSets {
+		cachedOpcodeSets[i] = nil
+	}
+	atomic.StorePointer(&cachedOpcodeMap, nil)
+}
+
+func verifDump() string {
+	initEncoder()
+	var sb strings.Builder
+	var slots []string
+	for i, s := range cachedOpcodeSets {
+		if s != nil {
+			slots = append(slots, fmt.Sprintf("%d:%s", i, verifDumpSet(s)))
+		}
+	}
+	var keys []string
+	for _, s := range loadOpcodeMap() {
+		keys = append(keys, verifDumpSet(s))
+	}
+	sort.Strings(keys)
+	fmt.Fprintf(&sb, "enc.slice=%v enc.map=%v", slots, keys)
+	return sb.String()
+}
+
+func verifDumpSet(s *OpcodeSet) string {
+	var q []string
+	s.cacheMu.RLock()
+	for k := range s.QueryCache {
+		q = append(q, k)
+	}
+	s.cacheMu.RUnlock()
+	sort.Strings(q)
+	return fmt.Sprintf("%s%v", s.Type.String(), q)
+}
+
+func verifDescribe(v interface{}) (string, bool) {
+	switch c := v.(type) {
+	case *RuntimeContext:
+		o := c.Option
+		return fmt.Sprintf("encctx{buf=%d/%d mbuf=%d ptrs=%d keep=%d seen=%d base=%d prefix=%q indent=%q opt{flag=%d color=%v ctx=%v dbg=%v dot=%v}}",
+			len(c.Buf), verifBucket(cap(c.Buf)), verifBucket(cap(c.MarshalBuf)), verifBucket(len(c.Ptrs)), len(c.KeepRefs), len(c.SeenPtr),
+			c.BaseIndent, c.Prefix, c.IndentStr, o.Flag, o.ColorScheme != nil, o.Context != nil, o.DebugOut != nil, o.DebugDOTOut != nil), true
+	case *MapContext:
+		return fmt.Sprintf("mapctx{items=%d buf=%d}", verifBucket(cap(c.Slice.Items)), verifBucket(cap(c.Buf))), true
+	}
+	return "", false
+}
+
+func verifBucket(n int) int {
+	b := 0
+	for n > 0 {
+		n >>= 1
+		b++
+	}
+	return b
+}
